@@ -68,8 +68,13 @@ def _apply_perturb(data, p):
             return data
         i = idxs[n % len(idxs)]
         pl = bytearray(chunks[i][1])
-        v = variant % 4
-        if v == 0:
+        v = variant % 6
+        if v in (4, 5):
+            # an instrument written by an older format revision: version 0/1 and header-level tuning
+            pl[0x100:0x104] = struct.pack("<I", v - 4)
+            pl[0xF5] = 5  # finetune (int8)
+            pl[0xF7] = 2  # relative_note (int8)
+        elif v == 0:
             pl[SIGN : SIGN + 4] = b"\0\0\0\0"  # written before the signature existed
         elif v == 1:
             pl = pl[:0x184]  # record ends after the 128-entry note map (no max_version / editor fields)
